@@ -652,6 +652,14 @@ def oracle(case):
 
     nres = len(run.results)
     exp_res, exp_left = expected(toks, nres if case["kind"] == "step" else case["k"])
+    # A flush-timer event in the middle of a schedule legitimately changes what a pending prefix
+    # key (c-x) means (that is what `timeoutlen` is for); the reference editor below knows no
+    # timers, so for such schedules only the timer-independent parts of the property are checked
+    # here (the model/real correspondence still compares these cases exactly).
+    timer_sensitive = False
+    if case["kind"] == "step" and case.get("layer") == "B" and "CX" in toks:
+        body = case["events"][:len(case["events"]) - len(completion_b(case["k"]))]
+        timer_sensitive = any(ev[0] == "T" for ev in body)
     typed = {c for t in toks for c in typed_text(t)}
     for i, (kind, text) in enumerate(run.results):
         if kind == -9:
@@ -667,6 +675,8 @@ def oracle(case):
         ek, et = exp_res[i]
         if kind != ek:
             bad("prompt() | ended the wrong way (accept vs abort)", f"prompt #{i + 1}: {kind} != {ek}")
+        elif text != et and timer_sensitive:
+            pass
         elif text != et:
             if len(text) < len(et) and _subseq(text, et):
                 cls = "keys lost"
